@@ -12,6 +12,8 @@
     sum [j…]       `=SUM(A1:A3,B1)`            numbers only (text, logicals, blanks ignored), first error wins
     cnt [j…]       `=COUNT(A1:A3,B1)`          how many numbers (errors ignored)
     idx r row col  `=INDEX(A1:B3,row,col)`     member value, blank -> 0
+    isum r1 r2 pos `=SUM(A1:B3 B2:C3)`         sum over the intersection; both operand ranges are declared precedents,
+                                               only the common cells (positions `pos` of r1, 0-based) are read
   Range nodes evaluate to the tuple of their members' values.
 
   Text that looks like a number is never generated (pycel would read it with Python's float()); non-integral numbers
@@ -45,6 +47,7 @@ inductive Fml where
   | sum (js : List Nat)
   | cnt (js : List Nat)
   | idx (r row col : Nat)
+  | isum (r1 r2 : Nat) (pos : List (Nat × Nat))
   deriving Repr, Inhabited
 
 def Fml.refs : Fml → List Nat
@@ -56,6 +59,7 @@ def Fml.refs : Fml → List Nat
   | .sum js => js
   | .cnt js => js
   | .idx r _ _ => [r]
+  | .isum r1 r2 _ => [r1, r2]
 
 inductive Spec where
   | inp (v : Val)
@@ -176,6 +180,14 @@ def evalFml (e : Fml) (env : Nat → EV) : EV :=
   | .idx r row col =>
     match env r with
     | .arr rows => finish ((rows.getD (row-1) []).getD (col-1) .blank)
+    | .sc _ => .err .ref
+  | .isum r1 _ pos =>
+    match env r1 with
+    | .arr rows =>
+      let vs := pos.map fun p => (rows.getD p.1 []).getD p.2 .blank
+      match firstErr vs with
+      | some e => .err e
+      | none => .num (sumNums vs)
     | .sc _ => .err .ref
 
 /-- the formula semantics handed to the engine -/
